@@ -67,6 +67,16 @@ func record(out string, n int, sum *hx.Summary) {
 		escapes := r.Intn(3) == 0
 		m := new(dns.Msg)
 		m.SetQuestion(owners[r.Intn(5)], dns.TypeANY)
+		switch r.Intn(10) { // question sections other than the usual single one
+		case 0:
+			m.Question = nil
+		case 1, 2:
+			for k := 1 + r.Intn(3); k > 0; k-- {
+				m.Question = append(m.Question, dns.Question{Name: owners[r.Intn(len(owners)-4)], Qtype: uint16(1 + r.Intn(40)), Qclass: dns.ClassINET})
+			}
+		case 3:
+			m.Question[0].Name = longQ[r.Intn(3)*55:]
+		}
 		m.Response = true
 		m.Truncated = r.Intn(6) == 0
 		m.Compress = r.Intn(2) == 0
@@ -106,7 +116,7 @@ func record(out string, n int, sum *hx.Summary) {
 		}
 		if r.Intn(2) == 0 {
 			pos := r.Intn(len(m.Extra) + 1)
-			m.Extra = append(m.Extra[:pos], append([]dns.RR{opt(1 + r.Intn(2))}, m.Extra[pos:]...)...)
+			m.Extra = append(m.Extra[:pos], append([]dns.RR{opt(1 + r.Intn(3))}, m.Extra[pos:]...)...)
 		}
 		// sizes: random, the classic ones, and the exact packed lengths of the whole reply +-1
 		var size int
